@@ -33,7 +33,13 @@ def check_pdu(raw: bytes, origin: str) -> t.Optional[t.Tuple[str, str]]:
             raise MonitorHarnessError(f"reference-encoded PDU rejected by the reference decoder: {e!r}")
         return ("lib-encoded-pdu-rejected", f"a PDU encoded by the library ({origin}) is not well-formed for the independent decoder: {e!r}; bytes={raw[:48].hex()}...")
     try:
-        lib = PDU.unpack(raw)
+        # the receiving node decodes from its receive buffer and then reuses that buffer for the next fragment
+        rxbuf = bytearray(raw)
+        lib = PDU.unpack(rxbuf)
+        try:
+            rxbuf[:] = b"\xEE" * len(rxbuf)
+        except BufferError:
+            return ("decoded-pdu-aliases-receive-buffer", f"{ref['name']}: the decoded object pins the caller's receive buffer (exported memoryview)")
     except Exception as e:  # noqa: BLE001
         return ("well-formed-pdu-not-decoded", f"library cannot decode a well-formed {ref['name']} from {origin}: {e!r}")
     h = lib.header
